@@ -12,6 +12,7 @@
 //!                                       r (header only) | h (neither) | b (body without a header)
 //!   crepl <n> <byte hex>                the worst-case honest `Cmd::Replicate` of n records (32-byte record keys, NonChunk content
 //!                                       hashes, every byte = <byte>) through the real codec: `len=.. fnv=.. read=ok|err`
+//!   crepl <n> <byte hex> <c>            the same with c chunk entries (`RecordType::Chunk`, 52 bytes each) in front of the n non-chunk ones
 //!   cresp <n> <byte hex>                `GetReplicatedRecord(Ok((RecordKey(), n × <byte>)))` through the real codec, likewise
 //!   pchunk <addr hex32> <value hex>     a `(ProofOfPayment, Chunk)` record whose chunk carries that (possibly forged) address
 use super::*;
@@ -304,6 +305,14 @@ pub fn worst_replicate(n: usize, fill: u8) -> Request {
         keys: (0..n).map(|_| (NetworkAddress::RecordKey(Bytes::from(vec![fill; 32])), RecordType::NonChunk(XorName([fill; 32])))).collect(),
     })
 }
+/// `c` chunk entries (`RecordType::Chunk`, 52 CBOR bytes each) in front of `n` non-chunk entries
+pub fn mixed_replicate(c: usize, n: usize, fill: u8) -> Request {
+    let key = || NetworkAddress::RecordKey(Bytes::from(vec![fill; 32]));
+    Request::Cmd(Cmd::Replicate {
+        holder: NetworkAddress::PeerId(Bytes::from(vec![fill; 38])),
+        keys: (0..c).map(|_| (key(), RecordType::Chunk)).chain((0..n).map(|_| (key(), RecordType::NonChunk(XorName([fill; 32]))))).collect(),
+    })
+}
 pub fn big_response(n: usize, fill: u8) -> Response {
     Response::Query(QueryResponse::GetReplicatedRecord(Ok((NetworkAddress::RecordKey(Bytes::new()), Bytes::from(vec![fill; n])))))
 }
@@ -351,7 +360,11 @@ pub fn exec_fam(ws: &[&str], tys: &[Ty]) -> Option<String> {
                 return None;
             }
             let (bytes, back) = if ws[0] == "crepl" {
-                let v = worst_replicate(n, fill);
+                let chunks: usize = if ws.len() > 3 { ws[3].parse().ok()? } else { 0 };
+                if chunks > 24 * 1024 * 1024 {
+                    return None;
+                }
+                let v = if ws.len() > 3 { mixed_replicate(chunks, n, fill) } else { worst_replicate(n, fill) };
                 let bytes = codec_write_request(v.clone()).ok()?;
                 let back = codec_read_request(&bytes).map(|r| {
                     log_like_a_receiver(&r);
@@ -529,6 +542,10 @@ pub fn corpus() -> Vec<String> {
     let mut v: Vec<String> = vec![];
     for (n, b) in [(0usize, 0xffu8), (1, 0x17), (23, 0xff), (24, 0x18), (255, 0xff), (256, 0x80), (8594, 0xff), (8595, 0xff), (8594, 0x18), (8595, 0x18), (11649, 0x00), (11650, 0x17), (16384, 0xff), (16384, 0x00)] {
         v.push(format!("crepl {n} {b:02x}"));
+    }
+    // mixed lists: a node full of chunks only fits; 4000 non-chunk records leave room for 10778 chunks, not for 10779
+    for (n, b, c) in [(0usize, 0xffu8, 16384usize), (0, 0x00, 16384), (4000, 0xff, 10778), (4000, 0xff, 10779), (1, 0x18, 1), (8594, 0xff, 1)] {
+        v.push(format!("crepl {n} {b:02x} {c}"));
     }
     for (n, b) in [(0usize, 0u8), (23, 1), (24, 2), (65535, 3), (65536, 4), (10485710, 0xee), (10485711, 0xee)] {
         v.push(format!("cresp {n} {b:02x}"));
